@@ -34,7 +34,12 @@ MIN_NONTRIVIAL = 100
 
 
 def safe_eq(a, b):
+    """Equality of two parameter values, field by field (independent of the generated dataclass __eq__, which is part of
+    what is being checked: the cache key relies on it)."""
     try:
+        fields = getattr(type(a), "__params__", None)
+        if fields is not None and type(a) is type(b):
+            return all(safe_eq(getattr(a, f), getattr(b, f)) for f in fields)
         return bool(a == b)
     except Exception:
         return a is b
